@@ -36,6 +36,7 @@ type Global struct {
 	curRun     int64
 	start      time.Time
 	Exhaustive map[string]int64 // name -> number of completely enumerated sub-spaces
+	Outcomes   map[string]int64 // "config outcome" -> runs
 }
 
 // Sample is one run written out for the evidence file.
@@ -58,6 +59,7 @@ var G = &Global{
 	MaxAlloc:   map[string]uint64{},
 	known:      map[string]bool{},
 	Exhaustive: map[string]int64{},
+	Outcomes:   map[string]int64{},
 }
 
 func (g *Global) beginRun(c *Ctx) {
@@ -79,6 +81,11 @@ func (g *Global) endRun(c *Ctx) {
 	g.mu.Lock()
 	defer g.mu.Unlock()
 	g.Runs++
+	oc := c.outcome
+	if i := strings.IndexByte(oc, '/'); i > 0 && len(g.Outcomes) > 400 {
+		oc = oc[:i]
+	}
+	g.Outcomes[c.Config+" "+oc]++
 	g.SimTimeS += c.simTimeS
 	g.LogDigest = g.LogDigest*1099511628211 ^ lh
 	g.distinct[h] = struct{}{}
@@ -176,6 +183,7 @@ type statsOut struct {
 	GuardCalls  map[string]int64  `json:"guard_calls"`
 	MaxAlloc    map[string]uint64 `json:"max_alloc_bytes"`
 	Exhaustive  map[string]int64  `json:"exhaustive_subspaces"`
+	Outcomes    map[string]int64  `json:"outcomes"`
 	WallS       float64           `json:"wall_s"`
 	GoVersion   string            `json:"go_version"`
 	GOMAXPROCS  int               `json:"gomaxprocs"`
@@ -198,7 +206,7 @@ func (g *Global) write(path string, code int) {
 		Prop: activeProp, Runs: g.Runs, RunsFault: g.RunsFault, FaultKinds: g.FaultKinds, Probes: g.Probes,
 		Known: g.Known, Violations: g.Violations, Distinct: hexList(g.distinct), DistinctNT: hexList(g.distinctNT),
 		Samples: g.Samples, LogDigest: fmt.Sprintf("%016x", g.LogDigest), SimTimeS: g.SimTimeS,
-		GuardCalls: g.GuardCalls, MaxAlloc: g.MaxAlloc, Exhaustive: g.Exhaustive,
+		GuardCalls: g.GuardCalls, MaxAlloc: g.MaxAlloc, Exhaustive: g.Exhaustive, Outcomes: g.Outcomes,
 		WallS: time.Since(g.start).Seconds(), GoVersion: runtime.Version(), GOMAXPROCS: runtime.GOMAXPROCS(0), ExitCode: code,
 	}
 	b, _ := json.Marshal(o)
